@@ -22,7 +22,7 @@ RULES = [
     (r"^\[T\]::(copy_from_slice|clone_from_slice|swap_with_slice)$", PARTIAL, "panics when lengths differ"),
     (r"^\[T\]::(chunks|chunks_exact|chunks_mut|chunks_exact_mut|rchunks|rchunks_exact|windows|array_chunks|array_windows|as_chunks)$",
      PARTIAL, "panics when the size argument is 0"),
-    (r"^\[T\]::(swap|rotate_left|rotate_right|copy_within|select_nth_unstable\w*|split_first_chunk|first_chunk)$", PARTIAL, "index preconditions"),
+    (r"^\[T\]::(swap|rotate_left|rotate_right|copy_within|select_nth_unstable\w*)$", PARTIAL, "index preconditions"),
     (r"^ops::(Index|IndexMut)::index(_mut)?$", PARTIAL, "panics when the index is out of range / key absent"),
     (r"^%s::(pow|abs|div_euclid|rem_euclid|next_power_of_two|next_multiple_of|ilog|ilog2|ilog10|isqrt|div_ceil|midpoint|abs_diff|strict_\w+|unchecked_\w+)$" % _INT,
      PARTIAL, "panics on overflow / zero divisor under debug assertions"),
@@ -46,6 +46,7 @@ RULES = [
      TOTAL, "total combinator (given a total closure, which is analysed as its own body)"),
     (r"^ffi::CStr::(from_bytes_until_nul|from_bytes_with_nul|to_bytes|to_bytes_with_nul|count_bytes|is_empty|to_str|as_ptr)$", TOTAL,
      "total: the constructors return a Result, the accessors cannot fail"),
+    (r"^\[T\]::(first_chunk|split_first_chunk|last_chunk|split_last_chunk)(_mut)?$", TOTAL, "return None when the slice is shorter than N"),
     (r"^\[T\]::(get|get_mut|len|is_empty|iter|iter_mut|first|last|split_first|split_last|starts_with|ends_with|contains|"
      r"split_at_checked|split_at_mut_checked|to_vec|as_ptr|binary_search\w*|strip_prefix|strip_suffix|fill|reverse|concat|join|"
      r"sort\w*|iter\w*|is_sorted\w*|as_array|trim_ascii\w*|is_ascii|eq_ignore_ascii_case)$",
